@@ -291,6 +291,11 @@ def run(ctx):
                                for t, pol in known_atoms(cfg, n.id))
                     if fresh_def or scal:
                         ctx.ok("R07.6", key, "fresh array" if fresh_def else "guarded by np.isscalar", fi, c)
+                    elif from_param and call_name(c) in ("asarray", "asanyarray") and \
+                            any(pol and isinstance(t, ast.Call) and call_name(t) == "isinstance" and src(t.args[0]) == a0.id and "ndarray" in src(t.args[1])
+                                for t, pol in known_atoms(cfg, n.id)):
+                        ctx.bad("R07.6", key, f"`{a0.id}` is known to be an ndarray here, so np.asarray returns the same memory (a base-class view for "
+                                              "subclasses): the field stores and locks the view, the caller's object stays writable", fi, c)
                     elif from_param and call_name(c) == "broadcast_to":
                         ctx.bad("R07.6", key, f"a view of the caller's array `{a0.id}` becomes field storage: the field locks the view, "
                                               "the caller keeps a writable handle to the same memory", fi, c)
@@ -486,6 +491,9 @@ def _flows_into_storage(cfg, rd, node, call):
                 continue
             if n2.ast is None or n2.kind not in ("stmt",):
                 continue
+            if isinstance(n2.ast, ast.Assign) and isinstance(n2.ast.value, ast.Name) and n2.ast.value.id == v and \
+                    any(isinstance(t, ast.Attribute) and isinstance(t.value, ast.Name) and t.value.id == "self" and t.attr in ("_val",) for t in n2.ast.targets):
+                return True
             for x in ast.walk(n2.ast):
                 if isinstance(x, ast.Call) and call_name(x) in STORAGE_CTORS:
                     for a in x.args:
@@ -546,3 +554,78 @@ def _is_copy_expr(fi, e):
                 return False
             return True
     return False
+
+
+# ---------------------------------------------------------------------------------------------------------------- R07.7
+def r07_7(ctx, m):
+    """a field must not be built on (a view of) a buffer that the producing object keeps and overwrites"""
+    ctx.rule("R07.7", "no method of a nifty.cl operator or field class returns a Field/AnyArray built on (a view of) an instance "
+                      "attribute buffer that the same method writes in place: the next call would change the values of the field "
+                      "handed out before (locking the view does not protect the retained base)", floor=15)
+    L = m.cls("nifty.cl.operators.linear_operator", "LinearOperator")
+    O = m.cls("nifty.cl.operators.operator", "Operator")
+    classes = [c for c in m.subclasses(O) if not c.local] if hasattr(m, "subclasses") else []
+    VIEWS = {"reshape", "ravel", "view", "squeeze", "transpose", "T", "swapaxes"}
+    n_checked = 0
+    for c in classes:
+        for name, fi in c.methods.items():
+            if name.startswith("__") and name != "__call__":
+                continue
+            # quick filter: method stores into a subscript and constructs a field
+            has_store = any(isinstance(st, (ast.Assign, ast.AugAssign)) and isinstance((st.targets[0] if isinstance(st, ast.Assign) else st.target), ast.Subscript)
+                            for st in walk_no_nested(fi.node))
+            has_ctor = any(isinstance(x, ast.Call) and call_name(x) in ("Field", "from_raw", "AnyArray", "makeField") for x in walk_no_nested(fi.node))
+            if not (has_store and has_ctor):
+                continue
+            n_checked += 1
+            cfg = cfg_of(fi)
+            rd = cfg.reaching_defs(fi.params())
+            # aliases of instance attributes: name -> attr
+            alias = {}
+            for n in cfg.nodes:
+                if n.kind == "stmt" and isinstance(n.ast, ast.Assign) and len(n.ast.targets) == 1 and isinstance(n.ast.targets[0], ast.Name):
+                    v = n.ast.value
+                    while isinstance(v, ast.Call) and isinstance(v.func, ast.Attribute) and v.func.attr in VIEWS:
+                        v = v.func.value
+                    if isinstance(v, ast.Attribute) and isinstance(v.value, ast.Name) and v.value.id == "self":
+                        alias.setdefault(n.ast.targets[0].id, set()).add((v.attr, n.id))
+            written = set()   # attrs written in place (directly or through an alias that may still be bound to the attribute)
+            for n in cfg.nodes:
+                if n.kind != "stmt" or not isinstance(n.ast, (ast.Assign, ast.AugAssign)):
+                    continue
+                t = n.ast.targets[0] if isinstance(n.ast, ast.Assign) else n.ast.target
+                if not isinstance(t, ast.Subscript):
+                    continue
+                b = t.value
+                if isinstance(b, ast.Attribute) and isinstance(b.value, ast.Name) and b.value.id == "self":
+                    written.add(b.attr)
+                elif isinstance(b, ast.Name) and b.id in alias:
+                    for attr, d in alias[b.id]:
+                        if d in (rd.get(n.id) or {}).get(b.id, ()):
+                            written.add(attr)
+            bad = None
+            if written:
+                for n, call in find_nodes(cfg, lambda q: isinstance(q, ast.Call) and call_name(q) in ("Field", "from_raw", "AnyArray", "makeField")):
+                    for a in call.args:
+                        v = a
+                        while isinstance(v, ast.Call) and isinstance(v.func, ast.Attribute) and v.func.attr in VIEWS:
+                            v = v.func.value
+                        if isinstance(v, ast.Attribute) and isinstance(v.value, ast.Name) and v.value.id == "self" and v.attr in written:
+                            bad = (call, v.attr)
+                        elif isinstance(v, ast.Name) and v.id in alias:
+                            for attr, d in alias[v.id]:
+                                if attr in written and d in (rd.get(n.id) or {}).get(v.id, ()):
+                                    bad = (call, attr)
+            ctx.check("R07.7", f"{fi.key}::does not hand out a buffer it keeps and overwrites", bad is None,
+                      None if bad is None else f"`{short(bad[0])}` wraps (a view of) self.{bad[1]}, which this method overwrites on every call", fi,
+                      bad[0] if bad else None)
+    if n_checked == 0:
+        ctx.und("R07.7", "nifty.cl::methods that store into arrays and build fields", "none found", None)
+
+
+_run_c07b = run
+
+
+def run(ctx):  # noqa: F811
+    _run_c07b(ctx)
+    r07_7(ctx, ctx.model)
